@@ -29,14 +29,15 @@ VARIABLES
     memo,       \* argid -> first observed result (history independence, C13)
     grp,        \* current equivalence group: [id, form, verdict] (C10, C11)
     cover,      \* per language: set of list indices seen emitted (C08)
+    osOuts,     \* outputs NewMnemonic has returned on the default source in this process (C07)
     cnt         \* counters reported in the verdict line
-vars == <<l, bad, known, drift, infra, nbad, memo, grp, cover, cnt, procVars>>
+vars == <<l, bad, known, drift, infra, nbad, memo, grp, cover, osOuts, cnt, procVars>>
 
 NoGroup == [id |-> -1, form |-> <<>>, res |-> <<>>]
 TraceInit ==
     /\ ProcInit
     /\ l = 1 /\ bad = {} /\ known = {} /\ drift = {} /\ infra = {} /\ nbad = 0
-    /\ memo = <<>> /\ grp = NoGroup /\ cover = [x \in Langs |-> {}]
+    /\ osOuts = {} /\ memo = <<>> /\ grp = NoGroup /\ cover = [x \in Langs |-> {}]
     /\ cnt = [events |-> 0, nontrivial |-> 0]
 
 ------------------------------------------------------------------------------
@@ -121,8 +122,11 @@ Inv_C06(e) ==
 
 Inv_C07(e) ==
     CASE e.op = "Swap" -> (source = "os" => e.prev_is_os)
-      [] e.op = "NewMnemonic" -> (source = "os" /\ BigOK(e.n) /\ IsSupported(e.lang) /\ Has(e, "os_observed") /\ e.os_observed =>
-                /\ e.err.nil /\ Len(delivered) = need /\ e.out = Mnemonic(delivered, e.lang))
+      [] e.op = "NewMnemonic" -> (source = "os" /\ BigOK(e.n) /\ IsSupported(e.lang) =>
+                /\ e.err.nil /\ Canonical(e.out, e.lang) /\ Len(Tokens(e.out)) = e.n.v
+                /\ e.out \notin osOuts                                        \* fresh output on every call
+                /\ (Has(e, "os_observed") /\ e.os_observed =>               \* what the kernel delivered explains the output
+                        Len(delivered) = need /\ e.out = Mnemonic(delivered, e.lang)))
       [] e.op = "OSOther" -> FALSE                           \* something else was read between the markers
       [] OTHER -> TRUE
 
@@ -254,6 +258,7 @@ Step ==
           /\ cover' = IF "C08" \in Props /\ ValidEnc(e)
                       THEN LET ix == Indices(e.ent) IN [cover EXCEPT ![e.lang] = @ \cup {ix[i] : i \in 1..Len(ix)}]
                       ELSE cover
+          /\ osOuts' = IF e.op = "Reset" THEN {} ELSE IF e.op = "NewMnemonic" /\ source = "os" /\ e.err.nil THEN osOuts \cup {e.out} ELSE osOuts
           /\ cnt' = [events |-> cnt.events + (IF IsCall(e) THEN 1 ELSE 0), nontrivial |-> cnt.nontrivial]
           /\ l' = l + 1
           /\ (l = N => PrintT(<<"VERDICT", ToJson([lines |-> l, nbad |-> nbad', bad |-> bad', known |-> known',
